@@ -26,6 +26,28 @@ def _cases(fn: ast.FunctionDef):
     return m[0], out
 
 
+def _tail_into_cases(fn: ast.FunctionDef) -> ast.FunctionDef:
+    """Normal form for the rules below: statements that follow the `match` (a tail shared by the cases that fall out of it,
+    e.g. `_emit(edited); return 0`) are copied to the end of every case that can fall through, so each case is judged as the
+    self-contained sequence of statements that runs for that sub-command."""
+    import copy
+    fn = copy.deepcopy(fn)
+    for i, st in enumerate(fn.body):
+        if isinstance(st, ast.Match):
+            tail = fn.body[i + 1:]
+            if not tail:
+                return fn
+            for c in st.cases:
+                last = c.body[-1] if c.body else None
+                if not isinstance(last, (ast.Return, ast.Raise)):
+                    c.body = list(c.body) + copy.deepcopy(tail)
+            if all(isinstance(c.body[-1], (ast.Return, ast.Raise)) for c in st.cases) and any(
+                    isinstance(c.pattern, ast.MatchAs) and c.pattern.pattern is None for c in st.cases):
+                del fn.body[i + 1:]  # unreachable now: every case (including the wildcard) leaves
+            return fn
+    return fn
+
+
 class CaseCtx:
     def __init__(self, prog: Program, fn, case: ast.match_case, cfg: CFG):
         self.prog, self.fn, self.case, self.cfg = prog, fn, case, cfg
@@ -181,7 +203,21 @@ def _classify_terminator(prog: Program, call: ast.Call, text_is, depth=0) -> str
             if len(params) != 1:
                 return "unknown"
             pname = params[0]
-            if assignments_to(tgt.node, pname):
+            rebinds = assignments_to(tgt.node, pname)
+            if rebinds:
+                # statement form of the conditional terminator:  if not p.endswith("\n"): p += "\n"  …  write(p)
+                is_p = lambda e: isinstance(e, ast.Name) and e.id == pname  # noqa: E731
+                body = [st for st in tgt.node.body if not (isinstance(st, ast.Expr) and isinstance(st.value, ast.Constant))]
+                if len(rebinds) == 1 and len(body) == 2 and isinstance(body[0], ast.If) and not body[0].orelse and body[0].body == [rebinds[0]] \
+                        and endswith_nl(body[0].test, is_p) is False:
+                    rb = rebinds[0]
+                    adds_nl = (isinstance(rb, ast.AugAssign) and isinstance(rb.op, ast.Add) and is_const(rb.value, "\n")) or \
+                              (isinstance(rb, ast.Assign) and plus_nl(rb.value, is_p))
+                    writes = _stdout_writes(prog, ast.Module(body=[body[1]], type_ignores=[]))
+                    if adds_nl and len(writes) == 1 and isinstance(body[1], ast.Expr) and body[1].value is writes[0]:
+                        inner = _classify_terminator(prog, writes[0], is_p, depth + 1)
+                        if inner == "never":
+                            return "conditional"
                 return "unknown"  # parameter rebound before emission
             for st in tgt.node.body:
                 m = _modifies_text(st, lambda e: isinstance(e, ast.Name) and e.id == pname)
@@ -204,7 +240,7 @@ def run(prog: Program) -> Results:
     mainf = prog.func("main")
     if mainf.module != MAIN:
         raise AnalysisError("main() moved out of cli/main.py")
-    fn = mainf.node
+    fn = _tail_into_cases(mainf.node)
     res.analysed_functions |= {"main", "build_parser", "with_file_argument"}
     cfg = CFG(fn)
     match, cases = _cases(fn)
@@ -234,33 +270,11 @@ def run(prog: Program) -> Results:
     if not ok_prints or not fail_prints:
         raise AnalysisError("main() case test: print('OK') / print('Fail') not found — verdict shape not classifiable")
 
-    # facts established on edges
+    # facts established on edges (shared engine: looks through boolean locals, complements, disjunctive edges)
+    from sa.cfg import edges_establishing as _ee, edges_establishing_any as _ee_any
+
     def edges_establishing(pred):
-        """(node,label) edges on which pred(atom, truth) holds for some atom known on that edge."""
-        out = []
-        for n in cfg.nodes:
-            if n.kind != "test" or isinstance(getattr(n, "stmt", None), ast.Match):
-                continue
-
-            def atoms(e, truth):
-                e2, neg = strip_not(e)
-                if neg:
-                    yield from atoms(e2, not truth)
-                    return
-                if isinstance(e2, ast.BoolOp):
-                    if isinstance(e2.op, ast.And) and truth:
-                        for v in e2.values:
-                            yield from atoms(v, True)
-                    elif isinstance(e2.op, ast.Or) and not truth:
-                        for v in e2.values:
-                            yield from atoms(v, False)
-                    return
-                yield e2, truth
-
-            for label in (True, False):
-                if any(pred(a, t) for a, t in atoms(n.ast, label)):
-                    out.append((n, label))
-        return out
+        return _ee(cfg, pred)
 
     def no_error_fact(a, truth):
         return isinstance(a, ast.Attribute) and a.attr == "contains_error" and truth is False \
@@ -304,7 +318,7 @@ def run(prog: Program) -> Results:
         l, r = a.left, a.comparators[0]
         return (ctx.is_exact_input(l) and ctx.is_rebuild_of_parsed_input(r)) or (ctx.is_exact_input(r) and ctx.is_rebuild_of_parsed_input(l))
 
-    e_fail = edges_establishing(error_fact) + edges_establishing(unequal_fact)
+    e_fail = _ee_any(cfg, [error_fact, unequal_fact])
     for fp in fail_prints:
         node = cfg.containing(fp)
         r1.instances += 1
